@@ -23,6 +23,7 @@ struct CmdSpec {
   std::vector<std::string> outs, reads, hidden;
   std::string depfile, rsp, print;
   bool msvc = false, restat = false, gen = false, copy = false, depall = false;
+  bool notes_last = false;   // msvc: the /showIncludes notes come after the tool's own output, the last one without a newline
   // how this tool spells names in its depfile / showIncludes output (canonical name -> spelling), and
   // whether it names all of its outputs as depfile targets (dsp=<hex of a=./a;b=x/../b>, dall=1)
   std::map<std::string, std::vector<std::string>> per_out;  // po=<hex of a:s,t;b:u>: output -> the reads its content depends on
